@@ -1,13 +1,23 @@
 import SeqIoModel.Proofs.FastaStreamGrowth
 import SeqIoModel.Proofs.FastqGrowth
+import SeqIoModel.Proofs.Alloc
+import SeqIoModel.Proofs.AllocFasta
 /-!
 # C18 – steady-state reading allocates nothing and keeps the buffer size
 
 What a model can carry: the buffer capacity changes only through a logged policy request, and input
 whose records fit never produces one – so the buffer size stays unchanged in steady state; returned
 records are views (pairs of the reader's buffer and offsets: `Fasta.head`, `Fasta.seqLines` take the
-buffer, they do not copy).  That no heap allocation happens is a fact about `Vec` and the allocator:
-it is observed on every run by a counting global allocator, not proved.
+buffer, they do not copy).
+
+Heap allocation itself: the readers and record sets own a fixed handful of `Vec`s that are only cleared and
+refilled.  `Model/Alloc.lean` adds their capacities as ghost state on top of M, following `RawVec`'s growth
+rule; the number of allocator calls it predicts for every `next()` / `read_record_set(_exact)` / `seek()` call
+is compared with a counting global allocator on every run (`A` cases: arbitrary histories, records of
+varying shape).  Proved here: a call in which no container has to hold more than it has room for allocates
+nothing and changes no capacity, capacities never shrink, hence "no larger than what was already processed"
+(read per container) means zero allocations, for single reads, reused FASTA sets and reused FASTQ sets, at any
+point of any history.  `Vec`'s growth rule and the allocator are modelled, not verified.
 -/
 
 namespace SeqIo.Thm.C18
@@ -34,5 +44,82 @@ theorem fastq_steady_state_keeps_buffer (inp : List UInt8) (cap : Nat) (hcap : 3
     (Fastq.nextN k (Fastq.mkReader inp cap pol script chunk)).log = [] ∧
       (Fastq.nextN k (Fastq.mkReader inp cap pol script chunk)).br.cap = cap :=
   Fastq.fitting_never_grows inp cap hcap pol hwf script hs chunk hfit k
+
+/-! ## allocations (ghost capacities, `Model/Alloc.lean`) -/
+
+open SeqIo.Alloc in
+/-- `next()` / `seek()`: a record with no more lines than `seq_pos` has room for: no allocation, same capacity -/
+theorem next_allocates_nothing_when_it_fits (seqCap : Alloc.Cap) (r' : Reader)
+    (h : r'.bp.seqPos.length ≤ seqCap.lb) : Alloc.Fa.readerStep seqCap r' = (seqCap, some 0) :=
+  Alloc.Fa.readerStep_fits seqCap r' h
+
+/-- in ANY history of `next()` calls, a call returning a record with no more lines than some record returned
+earlier allocates nothing -/
+theorem next_steady_state_allocates_nothing (c : Alloc.Cap) (before : List Reader) (r : Reader)
+    (h : r.bp.seqPos.length ≤ c.lb ∨ ∃ q ∈ before, r.bp.seqPos.length ≤ q.bp.seqPos.length) :
+    (Alloc.Fa.runNextSteps c (before ++ [r])).2 = (Alloc.Fa.runNextSteps c before).2 ++ [some 0] :=
+  Alloc.Fa.next_history_steady c before r h
+
+/-- a FASTA set read in which no container exceeds its room: no allocation, all capacities unchanged -/
+theorem fasta_set_read_allocates_nothing_when_it_fits (seqCap : Alloc.Cap) (sc : Alloc.SetCaps)
+    (rs' : RecordSet) (r' : Reader) (copied : Bool)
+    (hseq : max (Alloc.Fa.maxLen rs'.positions) r'.bp.seqPos.length ≤ seqCap.lb)
+    (hslots : Alloc.Fa.SlotsFit sc.slots rs'.positions) (hlen : sc.slots.length = rs'.positions.length)
+    (hpos : rs'.positions.length ≤ sc.pos.lb) (hbuf : rs'.buffer.length ≤ sc.buf.lb) :
+    Alloc.Fa.setStep seqCap sc rs' r' copied = (seqCap, sc, some 0) :=
+  Alloc.Fa.setStep_fits seqCap sc rs' r' copied hseq hslots hlen hpos hbuf
+
+/-- reused FASTA record set: a batch that is position by position no larger than the previous successful
+one is stored without allocation -/
+theorem fasta_reused_set_steady_state (seqCap : Alloc.Cap) (sc : Alloc.SetCaps) (rs1 rs2 : RecordSet)
+    (r1 r2 : Reader) (c2 : Bool)
+    (hn : Alloc.Fa.NoLarger rs2.positions rs1.positions) (hlen : rs1.positions.length ≤ rs2.positions.length)
+    (hr : r2.bp.seqPos.length ≤ max (Alloc.Fa.maxLen rs1.positions) r1.bp.seqPos.length)
+    (hb : rs2.buffer.length ≤ rs1.buffer.length) :
+    Alloc.Fa.setStep (Alloc.Fa.setStep seqCap sc rs1 r1 true).1 (Alloc.Fa.setStep seqCap sc rs1 r1 true).2.1 rs2 r2 c2 =
+      ((Alloc.Fa.setStep seqCap sc rs1 r1 true).1, (Alloc.Fa.setStep seqCap sc rs1 r1 true).2.1, some 0) :=
+  Alloc.Fa.set_steady seqCap sc rs1 rs2 r1 r2 c2 hn hlen hr hb
+
+/-- reused FASTQ record set: a batch with no more records and no more buffered bytes than the previous
+successful one is stored without allocation (`next()` of the FASTQ reader touches no `Vec` at all) -/
+theorem fastq_reused_set_steady_state (sc : Alloc.SetCaps) (rs1 rs2 : Fastq.RecordSet) (c1 c2 : Bool)
+    (hn : rs2.positions.length ≤ rs1.positions.length) (hb : rs2.buffer.length ≤ rs1.buffer.length)
+    (hc : c2 = true → c1 = true) :
+    Alloc.Fq.setStep (Alloc.Fq.setStep sc rs1 c1 false).1 rs2 c2 false = ((Alloc.Fq.setStep sc rs1 c1 false).1, some 0) :=
+  Alloc.Fq.set_steady sc rs1 rs2 c1 c2 hn hb hc
+
+/-- END TO END, for EVERY input S accepts, capacity ≥ 3, policy that grows when asked, failure-free read script
+and chunking: the `next()` call that returns record `j` performs no allocation (ghost model, any initial
+capacity of `seq_pos`) whenever an earlier record `i` had at least as many sequence lines.  Together with
+`steady_state_keeps_buffer` (no policy request for records that fit) this is the property's first half for single
+reads. -/
+theorem fasta_steady_state_allocates_nothing (inp : List UInt8) (rs : List Spec.FaRec)
+    (hrs : Spec.fasta inp = .records rs) (cap : Nat) (hcap : 3 ≤ cap) (pol : Pol) (hpol : Fasta.PolGrows pol)
+    (script : List ReadEv) (hs : NoFail script) (chunk : Nat) (c : Alloc.Cap) (i j : Nat) (hij : i < j)
+    (hj : j < rs.length) (hle : (rs[j]'hj).seqLines.length ≤ (rs[i]'(by omega)).seqLines.length) :
+    (Alloc.Fa.runNextSteps c (Alloc.Fa.runStates (j + 1) (mkReader inp cap pol script chunk))).2[j]? = some (some 0) :=
+  Alloc.Fa.fasta_steady_state_no_alloc_polGrows inp rs hrs cap hcap pol hpol script hs chunk c i j hij hj hle
+
+/-- the ghost step is justified by the machine: within one `next()` the offset vector is cleared at most once, at
+the very start, and afterwards only grows – so the length it has after the call is the largest it had -/
+theorem seq_pos_only_grows_within_a_call (r : Reader) (fuel : Nat) :
+    ((r.state = .incomplete ∨ r.state = .positioned) → r.bp.seqPos.length ≤ (next fuel r).1.bp.seqPos.length) ∧
+    (r.state = .finished → (next fuel r).1 = r) :=
+  Alloc.Fa.next_seqPos_after_clear fuel r
+
+/-- a record set never loses position slots (they are overwritten in place or appended) -/
+theorem record_set_keeps_its_slots (fuel : Nat) (r : Reader) (rs : RecordSet) (n : Option Nat) :
+    rs.positions.length ≤ (readRecordSetExact fuel r rs n).2.1.positions.length :=
+  Alloc.Fa.readRecordSetExact_positions_length fuel r rs n
+
+/-- capacities never shrink (the containers are cleared and refilled, never replaced) -/
+theorem capacities_never_shrink (mnz : Nat) (c : Alloc.Cap) (n : Nat) :
+    c.lb ≤ (c.push mnz n).1.lb ∧ c.lb ≤ (c.extend mnz n).1.lb ∧ n ≤ (c.push mnz n).1.lb ∧ n ≤ (c.extend mnz n).1.lb :=
+  ⟨Alloc.Cap.push_lb_mono mnz c n, Alloc.Cap.extend_lb_mono mnz c n, Alloc.Cap.push_lb_ge mnz c n, Alloc.Cap.extend_lb_ge mnz c n⟩
+
+/-- non-vacuity and the growth rule on concrete numbers: `seq_pos` starts with room for one offset; a record
+with four lines (five offsets) costs two re-allocations (1 → 4 → 8), the next such record none -/
+example : (Alloc.Cap.push 4 { lb := 1 } 5) = ({ lb := 8 }, some 2) ∧
+    (Alloc.Cap.push 4 { lb := 8 } 5) = ({ lb := 8 }, some 0) := by decide
 
 end SeqIo.Thm.C18
